@@ -99,6 +99,8 @@ impl Callback for Balances {
         for (address, balance) in balances.iter() {
             self.writer
                 .write_all(format!("{};{}\n", address, balance).as_bytes())?;
+            #[cfg(rbp_verif)]
+            crate::verif::ev("bal_row", &format!("\"addr\":{},\"balance\":\"{}\"", crate::verif::js(address), balance));
         }
 
         // Make sure everything is on disk before the file gets its final name
